@@ -110,7 +110,7 @@ theorem lexical_hyp {s : Str} {ts : List Tok} {skip0 : List Str}
     (hskip : ∀ n, memStr n skip0 = true → PlainEnvName n)
     (henv : ∀ pre esc n r, ts = pre ++ esc :: n :: r → esc.cat = .Escape →
       (n.text = sBegin ∨ n.text = sEnd) →
-      ∀ g tol mode a0 as rest, readArgs g (-1) (-1) tol mode r = .ok (a0 :: as, rest) →
+      ∀ g nreq nopt tol mode a0 as rest, readArgs g nreq nopt tol mode r = .ok (a0 :: as, rest) →
         (∃ b p, a0 = .group .brace b p) ∧ strip a0.string = a0.string ∧ noBareA [a0] = true) :
     Hyp skip0 ts where
   shaped := tokens_shaped h
